@@ -11,7 +11,7 @@ Open Scope Z_scope.
 
 (* ================================================================ the tree as it is (repaired) -- full strength.
    [fixed v]: none of the three repaired defects (what the harness probes on every run; [current_fixed]).
-   [wf_op]: senders are not the module account, the LP denomination is not ukex, and the creation bond of a
+   [wf_op]: senders are not the module account and spell their address in the canonical lower case (account = record key), the LP denomination is not ukex, and the creation bond of a
    holder of the bond-free creation permission is neither negative nor in a foreign denomination (the two
    inputs outside the modelled domain).  No restriction on names, amounts, order, users or block times. *)
 Theorem C20_current_tree_is_fixed : fixed (mkVariant false false false false false true true) /\ fixed repaired.
@@ -65,7 +65,7 @@ Theorem C20_chk_sound_state :
 Proof. exact state_clauses_sound_fixed. Qed.
 Print Assumptions C20_chk_sound_state.
 Theorem C20_chk_sound_user_step :
-  forall v c N Us k users dens, separated v N Us -> users_ok Us -> NoDup users -> users_ok users ->
+  forall v c N Us k users dens, separated v N Us -> users_ok Us -> canonical Us -> NoDup users -> users_ok users ->
   forall st o u n g, Inv c N Us k st -> op_in v c N Us o -> op_actor o = Some (u, n) -> In u users ->
   g_prev g = snap users dens true st ->
   user_clauses users g (snap users dens (is_ok (step v c st o)) (apply v c st o)) u n = [].
@@ -80,7 +80,7 @@ Print Assumptions C20_chk_sound_user_step.
    launched dApp, a pool fee between 0 and 1 and a non-negative LP supply (a fact of the bank); the repaired upsert
    handler and conversion. *)
 Theorem C20_bond_conservation :
-  forall v c N Us ops l, separated v N Us -> users_ok Us -> valid v c N Us (empty_state l) ops ->
+  forall v c N Us ops l, separated v N Us -> users_ok Us -> canonical Us -> valid v c N Us (empty_state l) ops ->
   bal MOD UKEX (led (run v c ops (empty_state l))) = sum_totals (dapps (run v c ops (empty_state l))) + bal MOD UKEX l
   /\ (forall n d, find_dapp n (dapps (run v c ops (empty_state l))) = Some d -> d_status d = 0 ->
       d_total d = sum_bonds n (bonds (run v c ops (empty_state l))) /\ d_total d <= max_thr c).
@@ -100,7 +100,7 @@ Print Assumptions C20_fee_within_amount.
 
 (* the checker's pool-native clause holds around every operation of the model inside its guard *)
 Theorem C20_chk_sound_pool_native :
-  forall v c N Us k users dens ok ok' st o, separated v N Us -> users_ok Us -> Inv c N Us k st -> op_ok v c N Us st o ->
+  forall v c N Us k users dens ok ok' st o, separated v N Us -> users_ok Us -> canonical Us -> Inv c N Us k st -> op_ok v c N Us st o ->
   cl "pool-native" (zsum (map snd (o_dapps (snap users dens ok' (apply v c st o)))) - zsum (map snd (o_dapps (snap users dens ok st)))
                     =? o_mod (snap users dens ok' (apply v c st o)) - o_mod (snap users dens ok st)) = [].
 Proof. exact pool_native_sound. Qed.
@@ -112,7 +112,7 @@ Print Assumptions C20_chk_sound_pool_native.
    it reclaimed -- over any sequence of create / bond / reclaim messages of any users, accepted or not,
    and the money that left (entered) the user's account is exactly that amount *)
 Theorem C20_user_bond_is_deposits_minus_reclaims_any_variant :
-  forall v c N Us, separated v N Us -> users_ok Us ->
+  forall v c N Us, separated v N Us -> users_ok Us -> canonical Us ->
   forall k ops st, Inv c N Us k st -> Forall (op_in v c N Us) ops -> forallb is_user_op ops = true ->
   (forall n u, bond_amt n u (bonds (run v c ops st)) = bond_amt n u (bonds st) + net_flow v c ops st n u)
   /\ (forall u, u <> MOD -> bal u UKEX (led (run v c ops st)) = bal u UKEX (led st) - net_out v c ops st u).
@@ -121,7 +121,7 @@ Print Assumptions C20_user_bond_is_deposits_minus_reclaims_any_variant.
 
 (* the dApp's total bond is the sum of the user bonds -- after any history of messages and blocks *)
 Theorem C20_total_is_sum_of_user_bonds_any_variant :
-  forall v c N Us, separated v N Us -> users_ok Us ->
+  forall v c N Us, separated v N Us -> users_ok Us -> canonical Us ->
   forall ops l, 0 <= bal MOD UKEX l -> Forall (op_in v c N Us) ops ->
   forall n d, find_dapp n (dapps (run v c ops (empty_state l))) = Some d -> d_status d = 0 ->
   d_total d = sum_bonds n (bonds (run v c ops (empty_state l))).
@@ -130,7 +130,7 @@ Print Assumptions C20_total_is_sum_of_user_bonds_any_variant.
 
 (* ... and never exceeds the maximum dApp bond ([op_in] asks creation bonds <= max on a tree that does not check) *)
 Theorem C20_total_le_max_any_variant :
-  forall v c N Us, separated v N Us -> users_ok Us ->
+  forall v c N Us, separated v N Us -> users_ok Us -> canonical Us ->
   forall ops l, 0 <= bal MOD UKEX l -> Forall (op_in v c N Us) ops ->
   forall n d, find_dapp n (dapps (run v c ops (empty_state l))) = Some d -> d_status d = 0 -> d_total d <= max_thr c.
 Proof. exact total_max. Qed.
@@ -145,7 +145,7 @@ Print Assumptions C20_total_le_max_refuted.
    when the EndBlocker finishes such a dApp it is removed, its records are removed and every user
    receives exactly the recorded bond (unchanged tree: provided no zero-amount record is left) *)
 Theorem C20_failed_bootstrap_refunds_all_any_variant :
-  forall v c N Us, separated v N Us -> users_ok Us ->
+  forall v c N Us, separated v N Us -> users_ok Us -> canonical Us ->
   forall ops l d, 0 <= bal MOD UKEX l -> Forall (op_in v c N Us) ops ->
   let st := run v c ops (empty_state l) in
   find_dapp (d_name d) (dapps st) = Some d -> d_status d = 0 -> d_total d < min_thr c ->
@@ -166,7 +166,7 @@ Print Assumptions C20_failed_bootstrap_refunds_all_refuted.
 
 (* the recorded bond of all dApps is held by the module account -- after any history *)
 Theorem C20_pool_bond_held_by_module_any_variant :
-  forall v c N Us, separated v N Us -> users_ok Us ->
+  forall v c N Us, separated v N Us -> users_ok Us -> canonical Us ->
   forall ops l, 0 <= bal MOD UKEX l -> Forall (op_in v c N Us) ops ->
   sum_totals (dapps (run v c ops (empty_state l))) + bal MOD UKEX l = bal MOD UKEX (led (run v c ops (empty_state l))).
 Proof. exact bond_held. Qed.
@@ -227,7 +227,7 @@ Print Assumptions C20_no_free_money_integer_partial_swap.
 
 (* non-vacuity: a history of the unchanged tree inside all guards, with a refund and a launch *)
 Example C20_nonvacuous_guards :
-  sepb ex_names ex_users = true /\ users_ok ex_users /\ Forall (op_in as_is rcfg ex_names ex_users) ex_ops.
+  sepb ex_names ex_users = true /\ users_ok ex_users /\ canonical ex_users /\ Forall (op_in as_is rcfg ex_names ex_users) ex_ops.
 Proof. exact ex_guards. Qed.
 Example C20_nonvacuous_result :
   let st := run as_is rcfg ex_ops (empty_state (led rst0)) in
